@@ -35,9 +35,22 @@ type Transport struct {
 	SchedSeed uint64   `json:"sched_seed"`
 	Tape      []uint32 `json:"tape,omitempty"` // explicit schedule (replay)
 	MaxSteps  int      `json:"max_steps,omitempty"`
+	// Seed is the session checksum seed the real server announces (pinned
+	// through the guarded hook so that wire bytes replay exactly); nil: derived
+	// from SchedSeed.
+	Seed *int32 `json:"seed,omitempty"`
+}
+
+// ChecksumSeed returns the seed pinned for sessions of this transport.
+func (tr *Transport) ChecksumSeed() int32 {
+	if tr.Seed != nil {
+		return *tr.Seed
+	}
+	return int32(kernel.Derive(tr.SchedSeed, "checksum-seed"))
 }
 
 func (tr *Transport) NewSim() *kernel.Sim {
+	pinSeed(tr.ChecksumSeed())
 	var tape *kernel.Tape
 	if tr.Tape != nil {
 		tape = kernel.NewFixedTape(tr.Tape)
